@@ -72,7 +72,9 @@ def tb_fen(piece, idx, mirror=False):
     bk, x = divmod(rest, 64)
     board = ["."] * 64
     board[wk], board[bk], board[x] = "K", "k", piece
-    p = {"board": board, "stm": "wb"[stm], "castle": [], "ep": 0, "half": 0, "full": 1}
+    # the counters are part of the position but of no rule the search may use: vary them with the slot
+    half = (0, 0, 1, 3, 12, 57)[idx % 6]
+    p = {"board": board, "stm": "wb"[stm], "castle": [], "ep": 0, "half": half, "full": half // 2 + 1 + idx % 3}
     if mirror:
         nb = ["."] * 64
         for s in range(64):
@@ -409,6 +411,14 @@ def check_c03(pid, tier, seed):
             st["sched"] = [rnd.randrange(1 << 30), rnd.choice([0.0, 0.5, 0.9])]
         sid += 1
         sessions.append({"id": sid, "steps": [st]})
+    # the counters are part of the position: the same placements late in a long game (a draw can be claimed at 100
+    # half-moves, but the game is not over and the search still owes a move)
+    for i in range(40 if quick else 600):
+        f = fens[(i * 11) % len(fens)].split()
+        f[4] = str(rnd.choice([99, 100, 100, 101, 120, 149, 150, 200, 1000]))
+        f[5] = str(max(int(f[5]), int(f[4]) // 2 + 1))
+        sid += 1
+        sessions.append({"id": sid, "steps": [{"fen": " ".join(f), "depth": rnd.choice([1, 2, 3]), "seed": rnd.randrange(1 << 30), "workers": rnd.choice([1, 1, 2]), "tables": 8, "buckets": 1024, "tag": "high-clock"}]})
     # histories: earlier searches on the same memory - variants of the root that differ only in castling rights /
     # en-passant state (generated by the specification), neighbours in the game, unrelated positions
     outs = textgen(chk, wd, "hash", os.path.join(wd, "pf.move.ndjson"), NPROC * (4 if quick else 1), range(NPROC), "h")
@@ -448,12 +458,49 @@ def check_c03(pid, tier, seed):
             steps.append(dict(st, reuse=True, seed=rnd.randrange(1 << 30), depth=2))
         wbs.append({"id": 900000 + i, "steps": steps})
     whitebox(chk, wvbin, wd, pid, wbs)
+    cli_evaluate(chk, wd, pid, fens + [f for f in TERMINAL_FENS], rnd, 10 if quick else 150)
     st, samples = trace_stats(traces)
     chk.coverage.update({"evaluations": st["searches"], "distinct_nontrivial": st["multi_worker"] + st["reused_memory"],
                          "rule": "searches of corpus and random-play positions through the hooked synchronous entry point (depth 1-4, seeds, 1-32 workers, seeded schedules of the workers' table accesses, table sizes down to one bucket), and sessions that reuse one memory across a root and its specification-generated variants (castling rights / en-passant / side), neighbours and unrelated positions; every reported line is replayed by TLC with Legal/Apply; non-trivial = searches with several workers or with a reused memory",
                          "samples": samples, "search_stats": st})
     chk.assumptions += ["the hooked entry point calls the same analyze_iterative as the public API"]
     chk.finish()
+
+
+TERMINAL_FENS = ["7k/5Q2/6K1/8/8/8/8/8 b - - 0 1", "R5k1/5ppp/8/8/8/8/8/6K1 b - - 0 1"]
+
+
+def cli_evaluate(chk, wd, pid, fens, rnd, n):
+    """`weechess evaluate --fen F --max-depth D --seed S`: the lines it prints (Peg spelling) judged by SearchTrace!TCliEval."""
+    import uci_driver
+    cli = build_cli()
+    cases = [(fens[(i * 5) % len(fens)] if i >= 2 else TERMINAL_FENS[i], rnd.choice([1, 2, 3]), rnd.randrange(1 << 30)) for i in range(n)]
+
+    def one(c):
+        f, d, sd = c
+        try:
+            r = subprocess.run([cli, "evaluate", "--fen", f, "--max-depth", str(d), "--seed", str(sd)], capture_output=True, text=True, timeout=600)
+            rc, out = r.returncode, r.stdout
+        except subprocess.TimeoutExpired:
+            rc, out = -999, ""
+        lines = []
+        for l in out.splitlines():
+            if l.startswith("[Best Move]"):
+                rest = l.split(")", 1)[1].split() if ")" in l else []
+                lines.append([list(t) for t in rest])
+        return {"ev": "CliEval", "fen": f, "pos": uci_driver.fen_to_pos(f), "depth": d, "seed": str(sd), "status": rc, "lines": lines}
+    with ThreadPoolExecutor(max_workers=6) as ex:
+        evs = list(ex.map(one, cases))
+    path = os.path.join(wd, "clieval.ndjson")
+    with open(path, "w") as f:
+        for e in evs:
+            f.write(json.dumps(e) + "\n")
+    res = tlc_many([dict(module="SearchTrace", trace=p, xmx="3g") for p in shard(path, min(NPROC, 4))])
+    chk.add_tlc(res)
+    from check import fold_diags
+    fold_diags(chk, res, pid)
+    chk.coverage["cli_evaluate"] = {"commands": len(evs), "lines_judged": sum(len(e["lines"]) for e in evs)}
+    chk.coverage["traces_validated_against_impl"] = chk.coverage.get("traces_validated_against_impl", 0) + 1
 
 
 # ------------------------------------------------------------------ C04
@@ -797,6 +844,29 @@ def check_c19(pid, tier, seed):
                 tool_error("missing public run for repro case %s" % p["id"])
             f.write(json.dumps({"ev": "Repro", "fen": p["fen"], "seed": str(p["seed"]), "depth": p["depth"], "api": "public", "shallow_workers": max(shallow.get((p["id"], t), 0) for t in "ABC"), "a": a, "b": b, "c": cc}) + "\n")
             n += 1
+    # the same through the command line (`weechess evaluate --fen F --max-depth D --seed S`, two processes)
+    cli = build_cli()
+
+    def cli_run(c):
+        try:
+            out = subprocess.run([cli, "evaluate", "--fen", c["fen"], "--max-depth", str(c["depth"]), "--seed", str(c["seed"])], capture_output=True, text=True, timeout=900).stdout
+        except subprocess.TimeoutExpired:
+            return ["timeout"]
+        keep = []
+        for ln in out.splitlines():
+            if ln.startswith("[Best Move]"):
+                keep.append(ln)
+            elif ln.startswith("[Progress"):
+                keep.append(" ".join(t for t in ln.split() if t.startswith("depth=") or t.startswith("nodes=")))
+        return keep
+    clis = [{"fen": fens[(i * 3) % len(fens)], "depth": rnd.choice([1, 2, 3]), "seed": rnd.randrange(1 << 30)} for i in range(5 if quick else 60)]
+    with ThreadPoolExecutor(max_workers=6) as ex:
+        r1 = list(ex.map(cli_run, clis))
+        r2 = list(ex.map(cli_run, clis))
+    with open(path, "a") as f:
+        for c, a, b in zip(clis, r1, r2):
+            f.write(json.dumps({"ev": "Repro", "fen": c["fen"], "seed": str(c["seed"]), "depth": c["depth"], "api": "cli", "shallow_workers": 0, "a": a, "b": a, "c": b}) + "\n")
+            n += 1
     shards = shard(path, NPROC)
     res = tlc_many([dict(module="SearchTrace", trace=p, xmx="3g") for p in shards])
     chk.add_tlc(res)
@@ -809,6 +879,6 @@ def check_c19(pid, tier, seed):
     first = json.loads(open(path).readline())
     distinct = len({(s["steps"][0]["fen"], s["steps"][0]["seed"], s["steps"][0]["depth"]) for s in sessions}) + len(pub)
     chk.coverage.update({"evaluations": n * 3, "distinct_nontrivial": distinct, "traces_validated_against_impl": len(shards),
-                         "rule": "(position, seed, depth) triples: each searched three times with fresh memory and one worker - twice in one process, once in another - through the hooked entry point (depth 1-4) and through the public threaded entry point (depth 1-3); the complete sequences of reports (lines, evaluations) and progress events (node counts) must be identical (SearchTrace!TRepro); distinct = distinct triples",
+                         "rule": "(position, seed, depth) triples: each searched three times with fresh memory and one worker - twice in one process, once in another - through the hooked entry point (depth 1-4) and through the public threaded entry point (depth 1-3), and twice through the `weechess evaluate` command line; the complete sequences of reports (lines, evaluations) and progress events (node counts) must be identical (SearchTrace!TRepro); distinct = distinct triples",
                          "samples": [{"fen": first["fen"], "seed": first["seed"], "depth": first["depth"], "run_a": first["a"][:2]}]})
     chk.finish()
